@@ -9,6 +9,7 @@ from mirsym import explore as ex
 
 class Instance:
     crates = ("ragc-core", "ragc-common")
+    overflow_checks = True          # False: interpret the MIR compiled with -C overflow-checks=off (what release binaries run)
     required_witnesses = ()
     bounds = {}
     n_concrete = 12
@@ -51,6 +52,10 @@ def run_instances(prop, mod_name, instances, ctx, level="model_checking", assump
     # make sure dumps exist before forking workers (single dump, shared by all)
     crates = sorted({c for i in instances for c in i.crates})
     mirs = {c: common.mir_dump(c) for c in crates}
+    for i in instances:
+        if not getattr(i, "overflow_checks", True):          # release-profile semantics (wrapping arithmetic) for these instances
+            for c in i.crates:
+                mirs[c + " (overflow-checks off)"] = common.mir_dump(c, False)
     replay.build("dev")
     pool = _pool(common.NCPU)
     viols, inconc, per_inst = [], [], []
